@@ -18,6 +18,8 @@ CLAIMED = {
             "rational point is the quotient of the two sums; the sampled parameters are n strictly increasing values starting and ending exactly on the domain ends; "
             "entry points: evaluate_list / the curve grid is the map of evaluate_single, the surface grid has |us|*|vs| points with point (i,j) at flat index i*|vs|+j (volume: u slowest, w fastest), its first and last "
             "points are the surface points at the domain corners, and entry 0 of Curve.derivatives(u, order) is the evaluated point for every order. "
+            "END TO END: evaluate_single (linear span search + span evaluation) equals the Cox-de Boor tensor sum for every parameter of the half-open domain, and on the closed domain the sum with the recursion of the span found - at the right end the last non-empty span "
+            "(left-limit convention; cdbSpan = cdb on the half-open span, = A2.2 for every parameter); rational: weight positive and point = quotient of the sums; curves, surfaces, volumes. "
             "The model is tied to Curve/Surface/Volume evaluate_single / evaluate_list / evalpts / derivatives(order=0) (BSpline and NURBS) by exact correspondence.",
             "The zeroth derivative of surfaces is covered coordinatewise by C02 (surface_derivatives_are_true_mixed_derivatives at k = l = 0 and surface_span_polynomial_is_the_surface). Not proved: the object layer's dispatch to the model functions (tied by correspondence + exact oracle). "
             "Known finding F-01 (sample size under normalize_kv=False) is reported as KNOWN-FINDING."),
@@ -97,8 +99,10 @@ CLAIMED = {
             "start / end A2.2 returns (1,0,..,0) / (0,..,0,1) and the evaluated point is the first / last active control point; rational coefficients N_i w_i / sum are non-negative and sum to one; "
             "the same hull theorem for surfaces and volumes (volume point = convex combination with the triple tensor coefficients), for rational curves / surfaces / volumes with positive weights (evaluated weight positive, projected point "
             "in the hull of the projected control points), and every evaluated point lies inside boundingBox of the (Cartesian) net (boundingBox proved to bound every net point). "
+            "END TO END (span search + evaluation, every parameter of the closed domain incl. the right end): curvePoint / surfacePoint / volumePoint lie in boundingBox of the net and in the hull of the control points active on the spans the search finds, "
+            "rational versions with positive weights; a clamped curve starts / ends at its first / last control point, corners of clamped surfaces / volumes are the corner control points. "
             "Model function boundingBox tied to the bbox property by exact correspondence; the exact oracle checks hull (axes + random directions), bbox, clamped ends on curves, surfaces, volumes, rational or not.",
-            "Statements are at given-span level (SpanOk); the tie to the span search is C03. Not proved: curve length bounds (floating point sqrt, oracle only)."),
+            "Not a Lean theorem: that find_ctrlpts returns exactly the active control points (C20 has the index statement), the object layer's dispatch; the clamped start needs a non-empty first span. Not proved: curve length bounds (floating point sqrt, oracle only)."),
     'C09': ("7/C09",
             "Lean theorems (23, all discharged): the list helpers combine / separate / generate_* are mutually inverse; for EVERY history of the three setters, the three reads and reverse the views "
             "satisfy ctrlptsw = combine(ctrlpts, weights) (invariant by induction over the op list); setter round trips; bspline_to_nurbs / nurbs_to_bspline; unit weights evaluate identically and a common "
@@ -107,18 +111,18 @@ CLAIMED = {
             "Model = repaired code (F-09, F-12a fixed by fix: commits after the check reported them with replays). Evaluation theorems are about the model evaluators on a given non-empty span; scripts keep the point count fixed "
             "(zip truncation in the setters is compared with the model but not judged)."),
     'C13': ("7/C13",
-            "Lean theorems (29, all discharged) over an arbitrary point type, for all sizes and degrees: the flat layout v + sv*(u + su*w) is a bijection with explicit inverse; ctrlpts2d getter/setter, the control-point "
+            "Lean theorems (31, all discharged) over an arbitrary point type, for all sizes and degrees: the flat layout v + sv*(u + su*w) is a bijection with explicit inverse; ctrlpts2d getter/setter, the control-point "
             "managers, flips, extraction of iso-curves / iso-surfaces all address flatIdx; the two flips are mutually inverse; transpose is an involution with S^T(v,u) = S(u,v); extract-then-construct is the identity "
             "for surfaces (both directions) and volumes (all three directions, repaired code); sweep boundary sections are the input and its translate; kernel-checked refutations of the pinned construct_volume('u'|'v') "
-            "and sweep_vector(curve). Tied to construct.*, sweeping.sweep_vector, operations.transpose/flip, ctrlpts2d, control_points managers by exact correspondence (27 op kinds) plus an exact oracle on the public API.",
+            "and sweep_vector(curve); volume evaluation equals the curve evaluation, in the remaining direction, over the points of the surfaces extract_surfaces builds (all three families), at span level and through the span search. Tied to construct.*, sweeping.sweep_vector, operations.transpose/flip, ctrlpts2d, control_points managers by exact correspondence (27 op kinds) plus an exact oracle on the public API.",
             "Model mirrors the repaired code (F-13a, F-13b fixed by fix: commits after the check reported them with replays). Boundary iso-curve identity, the weight split/recombine and knot-vector validation are oracle-only; "
             "transpose leaves sample sizes unswapped (recorded observation, not checked)."),
     'C17': ("7/C17",
-            "Lean theorems: binary span search = linear span search (termination included) for every degree / knots / parameter under the tolerance hypothesis that F-17b violates; span search, A2.2 and curve evaluation are "
-            "invariant under an increasing affine map of knots and parameter (normalised vs original knot range); an LRU cache of ANY capacity is transparent for EVERY call history (the contract behind GEOMDL_CACHE_SIZE); "
+            "Lean theorems: binary span search = linear span search (termination included) for every degree / knots / parameter under the tolerance hypothesis that F-17b violates; span search, A2.2 and curve / surface / volume POINT evaluation are "
+            "invariant under increasing affine maps of knots and parameter (per direction), in particular under knotvector.normalize with the normalised parameter; an LRU cache of ANY capacity is transparent for EVERY call history (the contract behind GEOMDL_CACHE_SIZE); "
             "both evaluator families are tied to one model function (C02). Correspondence: objects built with find_span_binsearch and with normalize_kv=True on affine knot ranges against the same model lines; the harness "
             "imports the package in sub-interpreters under GEOMDL_CACHE_SIZE in {unset,1,16,1024} and runs tessellation / voxelisation with num_procs in {1,2,4,8}, comparing results.",
-            "Runtime parts (process pools, functools.lru_cache itself, environment) cannot be exhibited by a theorem: they are compared by the harness in floating point only. F-17a (import fails when GEOMDL_CACHE_SIZE is set) was "
+            "Derivative scaling under the knot range and commuting with insertion / refinement / split are correspondence + oracle only. Runtime parts (process pools, functools.lru_cache itself, environment) cannot be exhibited by a theorem: they are compared by the harness in floating point only. F-17a (import fails when GEOMDL_CACHE_SIZE is set) was "
             "reported with a replay and fixed; F-17b and F-01 are recorded findings reported by C03 / C01."),
     'C19': ("7/C19",
             "Lean theorems (15, all discharged): the repaired == is reflexive, symmetric for equal tolerance, a deep copy equals its source; eqShape_iff: on well-formed shapes equality holds exactly when kind, rationality, "
